@@ -115,6 +115,12 @@ def check(c):
         if not numpy.array_equal(pred, exp):
             r = int(numpy.argmax(pred != exp))
             return dict(**{"class": "dispatch"}, what="row %d (bucket %d): got %r, its bucket's model gives %r" % (r, aq[r], pred[r], exp[r]))
+        # the same array object refilled in place between two calls: every row still goes to ITS bucket's model
+        buf = Q.copy()
+        m.predict(buf)
+        buf[:] = Q[::-1]
+        if not numpy.array_equal(m.predict(buf), exp[::-1]):
+            return dict(**{"class": "dispatch"}, what="second call on the same array object (refilled in place): rows do not get their bucket's model")
         # one bucket per row, unseen buckets at -1: a row of an unseen discretizer cell must not borrow another bucket
         if c["binner"] == "kbins":
             tr = m.binner_.transform(Q).toarray().astype(int)
